@@ -419,6 +419,45 @@ int32 matrixSslDecode(ssl_t *ssl,
 }
 
 # ifndef USE_TLS_1_3_ONLY
+/*
+    Encode the warning alert that refuses a renegotiation behind the data
+    already queued in ssl->outbuf (growing it if needed) rather than over
+    the input buffer. ssl->err is SSL_ALERT_NO_RENEGOTIATION on entry and
+    SSL_ALERT_NONE on success, exactly as when the alert is written through
+    the encodeResponse path of matrixSslDecodeTls12AndBelow.
+ */
+static int32 encodeNoRenegotiationToOutbuf(ssl_t *ssl, uint32 *requiredLen)
+{
+    psBuf_t out;
+    unsigned char *p;
+    int32 rc;
+
+    out.buf = out.start = out.end = ssl->outbuf + ssl->outlen;
+    out.size = ssl->outsize - ssl->outlen;
+    rc = sslEncodeResponse(ssl, &out, requiredLen);
+    if (rc == SSL_FULL)
+    {
+        if ((p = psRealloc(ssl->outbuf, ssl->outlen + *requiredLen,
+                 ssl->bufferPool)) == NULL)
+        {
+            return PS_MEM_FAIL;
+        }
+        ssl->outbuf = p;
+        ssl->outsize = ssl->outlen + *requiredLen;
+        out.buf = out.start = out.end = ssl->outbuf + ssl->outlen;
+        out.size = ssl->outsize - ssl->outlen;
+        /* The first attempt has already downgraded the error to a warning */
+        ssl->err = SSL_ALERT_NO_RENEGOTIATION;
+        rc = sslEncodeResponse(ssl, &out, requiredLen);
+    }
+    if (rc != MATRIXSSL_SUCCESS)
+    {
+        return rc < 0 ? rc : MATRIXSSL_ERROR;
+    }
+    ssl->outlen += out.end - out.buf;
+    return MATRIXSSL_SUCCESS;
+}
+
 static
 int32_t matrixSslDecodeTls12AndBelow(ssl_t *ssl,
         unsigned char **buf, uint32 *len,
@@ -1660,6 +1699,31 @@ CHECK_REPLAY_WINDOW:
             if (ssl->err == SSL_ALERT_NONE)
             {
                 ssl->err = SSL_ALERT_INTERNAL_ERROR;
+            }
+            if (ssl->err == SSL_ALERT_NO_RENEGOTIATION && c < origbuf + *len)
+            {
+                /*
+                    A refused renegotiation (HelloRequest or ClientHello on
+                    an established session) is answered with a warning
+                    alert and the session goes on, so the records that
+                    follow the refused one in this buffer - typically
+                    application data the peer sent right behind it - are as
+                    good as if they had arrived in a later read. The
+                    response below is written over the input buffer and the
+                    caller then forgets whatever the buffer held, which is
+                    only right when nothing follows or the session is over.
+                    Queue the alert in outbuf instead and have the caller
+                    go on with the next record.
+                 */
+                rc = encodeNoRenegotiationToOutbuf(ssl, requiredLen);
+                if (rc < 0)
+                {
+                    *error = rc;
+                    return MATRIXSSL_ERROR;
+                }
+                *remaining = *len - (c - origbuf);
+                *buf = c;
+                return MATRIXSSL_SUCCESS;
             }
             goto encodeResponse;
         default:
